@@ -1899,3 +1899,62 @@ Proof.
   destruct (R ops (ecomp_init p0)) as (cops & E). subst s. rewrite E. cbn [ecomp_init e_comp].
   exact (s_comp_pool_props r p0 Hs cops).
 Qed.
+
+(* ====================================================================== persisted mappings and restart *)
+Definition pop_keyed (f : N -> N) (o : pop) : bool := match o with PEvent co => keyed f co | PRestart _ => true end.
+
+Lemma restart_ops_keyed f d order : forallb (keyed f) (restart_ops d order) = true.
+Proof.
+  unfold restart_ops. induction order as [|sid order IH]; simpl; [reflexivity|].
+  rewrite forallb_app, IH. destruct (db_get sid d) as [[k b]|]; reflexivity.
+Qed.
+
+(* any history of component events and process restarts leaves the component in a state that some history of
+   component events reaches from the freshly configured pool; keyed histories give keyed ones *)
+Lemma prun_refines v c p0 f ops : forall s l, pc_comp s = crun v c (comp_init p0) l -> forallb (keyed f) l = true ->
+  forallb (pop_keyed f) ops = true ->
+  exists cops, pc_comp (prun v c p0 s ops) = crun v c (comp_init p0) cops /\ forallb (keyed f) cops = true.
+Proof.
+  unfold prun. induction ops as [|o ops IH]; intros s l E KL K; simpl.
+  - exists l. auto.
+  - simpl in K. apply andb_true_iff in K. destruct K as [K1 K2]. destruct o as [co|order].
+    + apply (IH _ (l ++ [co])); auto.
+      * cbn [pstep pc_comp]. rewrite E, crun_app. reflexivity.
+      * rewrite forallb_app, KL. simpl. simpl in K1. rewrite K1. reflexivity.
+    + apply (IH _ (restart_ops (pc_db s) order)); auto. apply restart_ops_keyed.
+Qed.
+
+Lemma restart_level_exact r p0 f ops ip port : setup repaired r = Some p0 -> forallb (pop_keyed f) ops = true ->
+  let s := pc_comp (prun repaired (effective r) p0 (pcomp_init p0) ops) in
+  match rev_lookup (cp_rev s) ip port with
+  | Some m => In (m_blk m) (blocks_of (cp_pool s) (m_sub m)) /\ covers (m_blk m) ip port = true /\
+              forall k b, In b (blocks_of (cp_pool s) k) -> covers b ip port = true -> k = m_sub m /\ b = m_blk m
+  | None => forall k b, In b (blocks_of (cp_pool s) k) -> covers b ip port = true -> exists sid, In (sid, k, b) (cp_pend s)
+  end.
+Proof.
+  intros Hs K s.
+  destruct (prun_refines repaired (effective r) p0 f ops (pcomp_init p0) [] eq_refl eq_refl K) as (cops & E & KC).
+  subst s. rewrite E. exact (s_lookup_exact r p0 Hs f cops ip port KC).
+Qed.
+
+Lemma restart_level_pool_props r p0 ops : setup repaired r = Some p0 ->
+  let c := effective r in
+  let s := pc_comp (prun repaired c p0 (pcomp_init p0) ops) in
+  (forall k1 k2 b1 b2, k1 <> k2 -> In b1 (blocks_of (cp_pool s) k1) -> In b2 (blocks_of (cp_pool s) k2) ->
+     b_ip b1 = b_ip b2 -> b_end b1 < b_start b2 \/ b_end b2 < b_start b1) /\
+  (forall k b, In b (blocks_of (cp_pool s) k) ->
+     In (b_ip b) (flat_map expand (r_outside r)) /\ ~ In (b_ip b) (r_excluded r) /\
+     c_pstart c <= b_start b /\ (b_start b - c_pstart c) mod c_bs c = 0 /\
+     b_end b = b_start b + c_bs c - 1 /\ b_end b <= c_pend c) /\
+  (forall k, N.of_nat (length (blocks_of (cp_pool s) k)) <= c_max c) /\
+  (c_paired c = true -> forall k b1 b2, In b1 (blocks_of (cp_pool s) k) -> In b2 (blocks_of (cp_pool s) k) -> b_ip b1 = b_ip b2).
+Proof.
+  intros Hs c s.
+  assert (R : forall ops0 s0 l, pc_comp s0 = crun repaired c (comp_init p0) l ->
+              exists cops, pc_comp (prun repaired c p0 s0 ops0) = crun repaired c (comp_init p0) cops).
+  { unfold prun. induction ops0 as [|o ops0 IH]; intros s0 l E; simpl; [eauto|]. destruct o as [co|order].
+    - apply (IH _ (l ++ [co])). cbn [pstep pc_comp]. rewrite E, crun_app. reflexivity.
+    - apply (IH _ (restart_ops (pc_db s0) order)). reflexivity. }
+  destruct (R ops (pcomp_init p0) [] eq_refl) as (cops & E). subst s. rewrite E.
+  exact (s_comp_pool_props r p0 Hs cops).
+Qed.
